@@ -76,6 +76,11 @@ def _inline_call(fraw, bb, hraw):
     for i, a in enumerate(t.get("args", [])):
         fm["blocks"][bb]["s"].append({"lhs": [off + 1 + i, []], "rv": {"k": "use", "op": a}, "line": line})
     nxt, unw, dest = t.get("t"), t.get("unwind"), t.get("dest")
+    # the helper's return place lives on as a local of the caller (Body.ret_locals decides whether what is stored
+    # there is handed on to the caller's own caller)
+    fm.setdefault("inlined_rets", []).append({"slot": off, "dest": dest[0] if dest and not dest[1] else None, "helper": hraw["path"]})
+    for r in hm.get("inlined_rets", []):
+        fm["inlined_rets"].append({"slot": r["slot"] + off, "dest": (r["dest"] + off) if r["dest"] is not None else None, "helper": r["helper"]})
     fm["blocks"][bb]["t"] = {"k": "goto", "t": boff, "line": line, "inlined": hraw["path"]}
     for blk in hm["blocks"]:
         nb = _shift(copy.deepcopy(blk), off, boff, promo_off)
@@ -87,6 +92,105 @@ def _inline_call(fraw, bb, hraw):
         elif tk == "resume" and unw is not None:
             nb["t"] = {"k": "goto", "t": unw, "line": nb["t"].get("line")}
         fm["blocks"].append(nb)
+    if dest is not None and nxt is not None:
+        _thread_known_variants(fm, off, boff)
+
+
+def _op_local(op):
+    """local of a whole-place operand ({"c"|"m": [l, []]}), else None"""
+    if isinstance(op, dict):
+        pl = op.get("m") or op.get("c")
+        if isinstance(pl, list) and len(pl) == 2 and isinstance(pl[0], int) and not pl[1]:
+            return pl[0]
+    return None
+
+
+def _fn_decl(t):
+    fn = t.get("fn") if isinstance(t, dict) else None
+    return (fn.get("decl") or fn.get("decl_path") or fn.get("path") or "") if isinstance(fn, dict) else ""
+
+
+def _thread_known_variants(fm, slot, first_block):
+    """Jump threading for the spliced helper's result: where a block stores a freshly built Ok / Err / Some / None in
+    the helper's return place `slot`, the straight run of blocks from there to the caller's test of that value (`?`,
+    `if let Err(..)`, `match`) is duplicated with the test replaced by the only branch it can take.  Without this the
+    merged return block makes "the helper's error exit leaves the caller's loop" invisible to path rules."""
+    blocks = fm["blocks"]
+    starts = []
+    for i in range(first_block, len(blocks)):
+        b = blocks[i]
+        var = None
+        for st in b["s"]:
+            if st.get("lhs") == [slot, []]:
+                rv = st.get("rv") or {}
+                var = rv.get("variant") if rv.get("k") == "aggr" and rv.get("adt") in ("std::result::Result", "std::option::Option") else None
+        t = b["t"]
+        if t.get("k") == "call" and t.get("dest") == [slot, []]:
+            var = None
+            if _fn_decl(t).endswith("FromResidual::from_residual"):
+                ty = fm["locals"][slot].get("ty", "")
+                var = "Err" if "Result<" in ty.split("::")[-1] or ty.startswith("std::result::Result") else ("None" if ty.startswith("std::option::Option") else None)
+        if var is not None and t.get("k") in ("goto", "drop", "call") and isinstance(t.get("t"), int):
+            starts.append((i, var))
+    for (p, var) in starts:
+        disc_val = {"Ok": 0, "Err": 1, "None": 0, "Some": 1}.get(var)
+        if disc_val is None:
+            continue
+        tracked, discr, cflow, cf_discr = {slot}, set(), set(), set()
+        cf_val = 1 if var in ("Err", "None") else 0
+        path, cur, target = [], blocks[p]["t"]["t"], None
+        for _ in range(16):
+            if cur in path or cur == p:
+                break
+            path.append(cur)
+            b = blocks[cur]
+            for st in b["s"]:
+                lhs, rv = st.get("lhs"), st.get("rv") or {}
+                if not lhs:
+                    continue
+                if rv.get("k") == "use" and not lhs[1] and _op_local(rv.get("op")) in tracked:
+                    tracked.add(lhs[0])
+                elif rv.get("k") == "discr" and not lhs[1] and isinstance(rv.get("place"), list) and not rv["place"][1]:
+                    if rv["place"][0] in tracked:
+                        discr.add(lhs[0])
+                    elif rv["place"][0] in cflow:
+                        cf_discr.add(lhs[0])
+                elif not lhs[1]:
+                    for grp in (tracked, discr, cflow, cf_discr):
+                        grp.discard(lhs[0])
+            t = b["t"]
+            k = t.get("k")
+            if k == "switch":
+                l = _op_local(t.get("op"))
+                want = disc_val if l in discr else (cf_val if l in cf_discr else None)
+                if want is not None:
+                    m = {v: x for v, x in t["vals"]}
+                    target = m.get(want, t["otherwise"])
+                break
+            if k == "goto" and isinstance(t.get("t"), int):
+                cur = t["t"]
+            elif k == "drop" and isinstance(t.get("t"), int):
+                cur = t["t"]
+            elif k == "call" and isinstance(t.get("t"), int) and t.get("dest") and not t["dest"][1]:
+                if _fn_decl(t).endswith("Try::branch") and t.get("args") and _op_local(t["args"][0]) in tracked:
+                    cflow.add(t["dest"][0])
+                elif t["dest"][0] in tracked | discr | cflow | cf_discr:
+                    break
+                cur = t["t"]
+            else:
+                break
+        if target is None:
+            continue
+        base = len(blocks)
+        clone_of = {b: base + i for i, b in enumerate(path)}
+        for i, b in enumerate(path):
+            nb = copy.deepcopy(blocks[b])
+            if i + 1 < len(path):
+                nb["t"]["t"] = clone_of[path[i + 1]]
+            else:
+                nb["t"] = {"k": "goto", "t": target, "line": nb["t"].get("line"), "threaded": var}
+            blocks.append(nb)
+        blocks[p]["t"]["t"] = clone_of[path[0]]
 
 
 def inline_new_helpers(units, known, renamed=()):
